@@ -1322,6 +1322,8 @@ class Interp:
             if ea.is_const() and eb.is_const():
                 x, y = ea.cval(), eb.cval()
                 return {"Eq": x == y, "NotEq": x != y, "Lt": x < y, "LtE": x <= y, "Gt": x > y, "GtE": x >= y}[name]
+            if ea == _NAN or eb == _NAN:
+                return name == "NotEq"     # IEEE: every other comparison with NaN is false
             if name == "Eq" and ea == eb:
                 return True
             if name == "NotEq" and ea == eb:
@@ -1747,6 +1749,7 @@ class Interp:
 
 
 _PENDING = object()
+_NAN = alg.sym("nan")
 _NEGOP = {"Lt": "GtE", "LtE": "Gt", "Gt": "LtE", "GtE": "Lt", "NotEq": "Eq"}
 
 
